@@ -43,14 +43,17 @@ impl PathSegment {
   }
 
   pub fn to_axum_segment(&self) -> String {
+    // The capture is matched against the serde name of the path struct's field: a raw identifier
+    // (`r#type`) is known to serde without its `r#` prefix.
+    let capture = |field: &FieldNameToken| format!("{{{}}}", field.as_str().trim_start_matches("r#"));
     match self {
       Self::Literal(lit) => lit.clone(),
-      Self::Param(field) => format!("{{{}}}", field.as_str()),
+      Self::Param(field) => capture(field),
       Self::Mixed { format, params } => {
         let mut result = format.clone();
         for param in params {
           if let Some(pos) = result.find("{}") {
-            result.replace_range(pos..pos + 2, &format!("{{{}}}", param.as_str()));
+            result.replace_range(pos..pos + 2, &capture(param));
           }
         }
         result
